@@ -271,15 +271,24 @@ def rendered_numbers(ctx: Ctx, rep: Report, rid: str = "R10.6") -> None:
         g = ctx.prog.find_func(q)
         if g is None:
             continue
-        for els, pi in rendered_sequences(ctx, g):
+        from .normalise import normalised
+
+        seqs = rendered_sequences(ctx, g)
+        if any(els is None for els, _ in seqs):
+            seqs = rendered_sequences(ctx, normalised(ctx, g, "unroll,calls,ifexp"))  # a filtering loop over a literal tuple
+        for els, pi in seqs:
             m += 1
             rep.instance()
             if els is None:
-                # a rendering this reader does not follow (not a join of a list): look for the prefix anywhere in the returned text
+                # a rendering this reader does not follow (not a join of a list): the prefix must at least be computed on
+                # this path and flow into what is returned
                 r = deep_resolve(pi.ret, pi.env) if pi.ret is not None else None
-                ok = r is not None and ("_sequence_s()" in src(r) or "_sequence" in src(r))
+                ok = (r is not None and ("_sequence_s()" in src(r) or "_sequence" in src(r))) or any(nd.ast is not None and "_sequence_s()" in src(nd.ast.iter if nd.kind == "for" else nd.ast) for nd, _lab in pi.nodes)
             else:
                 ok = bool(els) and ("_sequence_s()" in src(els[0]) or "self._sequence" in src(els[0]) or "self.sequence" in src(els[0]))
+                # a renderer that filters empty words while it collects them leaves the prefix out exactly when it is empty
+                if not ok and any((not tr) and "_sequence_s()" in src(t) for t, tr in pi.atoms):
+                    ok = True
             held = "; ".join(f"{snippet(t, 30)}{'' if tr else ' (false)'}" for t, tr in pi.atoms)[:120]
             if ok:
                 rep.ok(f"{q} [{held}]", "the rendered line starts with the sequence prefix", nontrivial=False, where=where(g))
